@@ -543,10 +543,18 @@ Proof.
   - intros I. exists x. split; auto. apply Z.eqb_refl.
 Qed.
 
+Lemma label_tab_spec ps : forall els, label_tab ps els = map (label ps) els.
+Proof.
+  induction ps as [|[a b] r IH]; intros els; cbn [label_tab label].
+  - now rewrite map_id.
+  - rewrite IH. cbn [map]. rewrite map_map. reflexivity.
+Qed.
+
 (** The executable closure decides the specification. *)
 Theorem closure_b_spec ps x y : closure_b ps x y = true <-> closure ps x y.
 Proof.
-  unfold closure_b. rewrite !andb_true_iff, !mem_z_In, Z.eqb_eq, label_spec, closure_eqc. tauto.
+  unfold closure_b. rewrite label_tab_spec. cbn [map].
+  rewrite !andb_true_iff, !mem_z_In, Z.eqb_eq, label_spec, closure_eqc. tauto.
 Qed.
 
 (** * Part 3: the sparse layer *)
